@@ -163,6 +163,12 @@ def defects(rows):
         if r[5] == "RegEx": yield "broken regular expression", put(i, 6, "a[0-9"), i
         if r[5] == "Constant": yield "constant with two tokens", put(i, 6, "k k"), i
         if r[5] == "DateTime": yield "example that is no date", put(i, 2, "31.02.2020"), i
+        # "an example its own field accepts": the example has to pass every guard of the field (length, allowed characters), not just the rule
+        if r[5] in ("Text", "") and r[4] == "...10":
+            yield "example longer than the declared length", put(i, 2, "x" * 11), i
+            if fmt in ("delimited", "csv"): yield "example with a character outside the allowed characters", ins(1, ["d", "allowed characters", "32...126"])[:i + 1] + [[r[0], r[1], "Müller"] + r[3:]] + [list(x) for x in rows[i + 1:]], i + 1
+        if r[5] == "Integer" and r[4] == "1...5" and fmt != "fixed":
+            yield "integer example inside the rule but longer than the declared length", [list(x) for x in rows[:i]] + [[r[0], r[1], "1234567", r[3], r[4], r[5], "0...9999999"]] + [list(x) for x in rows[i + 1:]], i
     only_d = [r for r in rows if r[0] == "d"]
     yield "no field at all", only_d, len(only_d)
     if ci:
